@@ -6,7 +6,7 @@ import math
 from datetime import date, time, timedelta
 from fractions import Fraction
 
-from ..lib import NMEA2000Decoder, NMEA2000Encoder
+from ..lib import NMEA2000Decoder, NMEA2000Encoder, NMEA2000Message, NMEA2000Field
 from .. import refdb, gen, wire
 
 ID = "C09"
@@ -173,6 +173,30 @@ def run_shard(spec, acc):
                 continue
             if base is None:
                 continue
+            # the same field values in messages of another shape: fields in reverse and in random order, an additional
+            # field the definition does not know, and a message built by hand from nothing but ids, values and raw
+            # values - the payload must be the one the decoded message encodes to
+            shapes = []
+            m_ = copy.deepcopy(base)
+            m_.fields.reverse()
+            shapes.append(("fields-reversed", m_))
+            m_ = copy.deepcopy(base)
+            rng.shuffle(m_.fields)
+            m_.fields.append(NMEA2000Field(id="notInTheDefinition", value=1, raw_value=1))
+            shapes.append(("fields-shuffled-plus-unknown-field", m_))
+            shapes.append(("built-by-hand", NMEA2000Message(PGN=base.PGN, id=base.id, priority=base.priority, source=base.source, destination=base.destination,
+                                                               fields=[NMEA2000Field(id=x.id, value=x.value, raw_value=x.raw_value) for x in base.fields])))
+            for label_, m_ in shapes:
+                acc.count("encodes_attempted")
+                acc.count("message_shapes_compared")
+                try:
+                    o_ = int.from_bytes(bytes.fromhex((enc.encode_actisense(m_).split() + [""])[2]), "little")
+                except Exception as e:  # noqa: BLE001
+                    acc.violation("same-values-other-message-shape-rejected", f"{d.id}: {label_}: {type(e).__name__}: {e}", {"definition": d.id, "shape": label_})
+                    continue
+                if o_ != base_out:
+                    acc.violation("same-values-other-message-shape-encodes-differently", f"{d.id}: {label_}: payload {o_:x} instead of {base_out:x}",
+                                  {"definition": d.id, "shape": label_, "base_payload_hex": base_payload.to_bytes(nb, "little").hex()})
             # missing field
             for f in d.fields:
                 m = copy.deepcopy(base)
